@@ -40,8 +40,7 @@ T_Sign ==
          src  == IF into THEN SortRecs(den) ELSE e.full
          pass == PassSeq(src, apex, c)
          want == {Proj(SigOf(x, ki, c)) : x \in SignedRRsetsV(vf, full, apex), ki \in 1..Len(c.keys)}
-         wantI == IF into /\ "D_sign_into_skips_zone" \in Dev
-                  THEN {s \in want : s.cov \in DenTypes} ELSE want
+         wantD == {s \in want : s.cov \in DenTypes}     \* sign-into as built
          got  == [i \in 1..Len(e.sigs) |-> e.sigs[i]]
      IN /\ IsSortedRecs(e.zone) /\ IsSortedRecs(e.full)
         /\ ~e.err
@@ -58,9 +57,12 @@ T_Sign ==
                                               ELSE x.t = T_NSEC3PARAM /\ NameEq(x.n, apex)
                          /\ \E x \in den : x.t = T_NSEC3PARAM
         \* P1: the transcription, in order, and the oracle, as a set
-        /\ (~into \/ "D_sign_into_skips_zone" \in Dev) =>
-              got = [i \in 1..Len(pass) |-> Proj(pass[i])]
-        /\ Range(got) = wantI /\ Len(got) = Cardinality(wantI)
+        \* (a repaired sign-into path is accepted as well as the deviation)
+        /\ \/ /\ Range(got) = want /\ Len(got) = Cardinality(want)
+              /\ ~into => got = [i \in 1..Len(pass) |-> Proj(pass[i])]
+           \/ /\ into /\ "D_sign_into_skips_zone" \in Dev
+              /\ Range(got) = wantD /\ Len(got) = Cardinality(wantD)
+              /\ got = [i \in 1..Len(pass) |-> Proj(pass[i])]
         \* P4
         /\ e.verified /\ e.validated
         /\ \A ki \in 1..Len(c.keys) : NameEq(c.keys[ki].owner, apex)
